@@ -297,6 +297,41 @@ def extra_checks(rng, tier, g, info):
     yield from refused_then_corrected(rng, tier, info)
     yield from numeric_forms(rng, tier, info)
     yield from _soak(rng, tier, g, info)
+    yield from _derived_masters(rng, tier, info)
+
+
+def _derived_masters(rng, tier, info):
+    """the BIP85 master is a node DERIVED in this process (it has a parent object, a depth, a place in a larger tree):
+    an account key, a deep child, a child of a parsed key.  BIP85 works from the key it is given — the secrets are those
+    of that node's private key and chain code, whatever tree the node object hangs in."""
+    import btc_hd_wallet.bip85 as b85
+    n = 0
+    for _ in range(2 if tier == "quick" else 25):
+        k0 = rng.randrange(1, N)
+        c0 = bytes(rng.getrandbits(8) for _ in range(32))
+        xprv = common.xkey_string(0x0488ADE4, 0, bytes(4), 0, c0, b"\x00" + k0.to_bytes(32, "big"))
+        root = impl.make_wallet("xkey:" + sx(xprv)).master
+        for path in ([84 + H, H, H], [0], [1, 2, 3 + H, 4, 5], [H + 83696968]):
+            node = root.derive_path(path)
+            k = int.from_bytes(bytes(node.private_key), "big")
+            chain = node.chain_code
+            routes = {"BIP85DeterministicEntropy(master_node=derived node)": b85.BIP85DeterministicEntropy(master_node=node),
+                      "wallet built on the derived node, .bip85": type(impl.make_wallet("xkey:" + sx(xprv)))(master=node).bip85}
+            for how, b in routes.items():
+                for app, param, idx in (("wif", 0, rng.randrange(H)), ("hex", 32, 0), ("mnemonic", 12, 1), ("xprv", 0, 7),
+                                        ("pwd", 21, 0)):
+                    n += 1
+                    want = indep(app, k, chain, param, idx)
+                    try:
+                        got = impl._bip85_call(b, app, param, idx)
+                    except Exception as e:
+                        got = "raised %s" % type(e).__name__
+                    if got != want:
+                        yield ("# %s; root %s, node at %s; %s(param %d, index %d)" % (how, xprv, path, app, param, idx),
+                               "BIP85 %s is not derived from the key it was given (the node at %s): %s, expected %s" % (
+                                   app, path, str(got)[:40], str(want)[:40]))
+                        return
+    info["derived_master_requests"] = n
 
 
 def _soak(rng, tier, g, info):
